@@ -18,17 +18,21 @@
   `resume_equiv_dag`),
   from the core lemmas `loop_from_checkpoint` and `interrupt_is_pause`; for the sub-graph / rerun
   interrupt only what is saved and restored (`sr_checkpoint_partial`, `sr_restore_partial`).
-  MISSING for the full statement: (1) the compositional rule for nesting ("if every node body is
-  resume-correct then so is the run"): it needs `fold_then_get = get_after_all`, i.e. that reporting the
-  other finished tasks before the interrupt and the restored ones after the resume gives the channels
-  of the uninterrupted superstep.  In any-predecessor mode reporting commutes; in all-predecessor mode
-  the correspondence check shows it to be FALSE on the shipped code for a node reached from the same
-  predecessor by an edge and by a branch (the C02 finding: skip and dependency are written in an
-  order-dependent way) — recorded as known finding `C05:resume-equiv:edge+branch-same-pred`; outside
-  that shape it is a confluence argument like C02's.  (2) rerun nodes, which relate two different node
-  behaviours through the user's pre-handler.  (3) the Stream paradigm (`mixed_paradigm_resume`): not
-  modelled.  All three are covered by the correspondence check only (harness/props/c05.go compares
-  every resumed history, a part of them driven through Stream, with the uninterrupted run).
+  UPDATE (sections "Nested graphs" and "Rerun nodes" at the end of this file): the compositional rule
+  for nesting is now proved — `resume_equiv_nested` / `resume_equiv_nested_bounded` for every nesting
+  depth, from `fold_then_get = get_after_all` (`SplitOK`), which is proved for any-predecessor levels
+  (`split_rule_pregel`, `fold_then_get_pregel`) and is a stated hypothesis for all-predecessor levels
+  (the edge+branch-same-pred counterexample is repaired on the pinned tree: known_findings/C05.json).
+  STILL MISSING for the full statement: (1) all-predecessor levels: there `SplitOK` does not hold with
+  *equal* channel maps (a channel that waits for further predecessors keeps the values it has in
+  arrival order, a channel skipped later keeps values written earlier), only up to an equivalence of
+  channel maps that `get` cannot observe — the simulation would have to be carried out up to that
+  equivalence (a confluence argument like C02's); (2) rerun nodes, which relate two different node behaviours through the
+  user's pre-handler and the state (only what is restored is proved: `rerun_restores_exactly`,
+  `rerun_input_rebuilt`); (3) the Stream paradigm (`mixed_paradigm_resume`): not modelled; (4) failing
+  runs with nested interrupts (the error reported depends on the completion order).  These are covered
+  by the correspondence check only (harness/props/c05.go compares every resumed history, a part of them
+  driven through Stream, with the uninterrupted run).
 -/
 import EinoV.Model.C05
 import EinoV.Model.C05Eager
@@ -36,6 +40,12 @@ import EinoV.Model.GraphBuild
 import EinoV.Proofs.C05
 import EinoV.Proofs.C05Engine
 import EinoV.Proofs.C05Resume
+import EinoV.Model.C05Nested
+import EinoV.Proofs.C05Nested
+import EinoV.Proofs.C05NestedEngine
+import EinoV.Proofs.C05NestedDepth
+import EinoV.Proofs.C06Nested
+import EinoV.Proofs.C05NestedExamples
 import EinoV.Gen.FactsC05
 import EinoV.Expected.C05
 
@@ -384,5 +394,306 @@ theorem eager_pending_equiv_on_witnesses :
     (historyE natOps .pending wCarried aFirst 8 1).calls = 3 := by decide
 
 end Eager
+
+/-! ## Nested graphs: interrupts inside graph nodes, at every nesting depth
+
+  Model: EinoV/Model/C05Nested.lean — `subBody` (the body of a node that is a compiled graph: the nested
+  `runner.run` as a sub-graph, started from the input or from the nested checkpoint the parent stored
+  under `SubGraphs[key]`; the body Oracle/C05GraphCase.lean builds for a `"graph"` node, up to the
+  input-key / empty-stream wrappers of the keyed family),
+  `NR d` (graphs nested `d` deep: nodes are functions or graphs of `NR (d-1)`, each level with its own
+  interrupt-before/after sets, state, handlers, completion order), `NR.toI` (the compiled runner),
+  `NR.deepPlain` (interrupt sets emptied at every level: the uninterrupted reference), `NR.leafLog` (the
+  executions of the function nodes of all levels: node path and input after the pre-handler).
+  Proofs: Proofs/C05Nested.lean (one level: `step_sim`, `loop_sim`, `call_sim`, `subBody_sim`),
+  Proofs/C05NestedDepth.lean (induction on the depth, the history of calls, the split rule),
+  Proofs/C05NestedEngine.lean (the engine facts in any-predecessor mode).
+
+  FULL STATEMENT, kept visible:
+    resume_equiv_nested_full : ∀ d (nr : NR d) sched x calls, calls > (number of interrupts the run can take) →
+      finalOf (resumeUntilDone (toI nr) sched calls x) = (run₀ (toI (deepPlain nr)) sched x).res   (value or error)
+      ∧ leafLog (history) ~ leafLog (run₀ …)
+  PROVED (`resume_equiv_nested`, `resume_equiv_nested_bounded`): the statement for every depth, every interrupt-before/after set at
+  every level, every topology and handler, every completion order that is a permutation, any number of
+  interrupts, whenever the uninterrupted run returns a value and the history is continued until it no
+  longer ends in an interrupt; per level under `LevelHyp` (distinct channel keys, the mode invariant, and
+  the split rule `SplitOK`).  `SplitOK` is proved for every any-predecessor level with an
+  order-insensitive merge and commuting post-handlers (`split_rule_pregel`), and in general from
+  `FoldThenGet` + `CalcNextPerm` + `PostsCommute` (`split_rule_of`).
+  The number of calls is bounded by the work of the uninterrupted run (`resume_terminates_nested`,
+  `resume_equiv_nested_bounded`).
+  MISSING for the full statement: (1) runs in which the uninterrupted run fails: which error is
+  reported depends on the completion order, and an interrupted graph node fails only after its resume,
+  so the history's error is one the uninterrupted run reports under *some* completion order, not under
+  the same one; (2) all-predecessor levels: `FoldThenGet` / `CalcNextPerm` hold there only up to an
+  equivalence of channel maps that `get` cannot observe (pending values in arrival order, contents of
+  channels skipped later), not with equal channel maps as `SplitOK` demands — the theorems below are
+  stated for any level satisfying `SplitOK`, which is proved for any-predecessor levels only; (3) executions are compared as
+  multisets (`List.Perm`): tasks of a superstep run concurrently and the resumed graph node logs its
+  remaining executions in a later call.  Rerun nodes: see the section below. -/
+section Nested
+open EinoV.Interrupt
+
+variable {V S X : Type}
+
+/-- **nested_call_sim** (one call, every nesting depth).  If the uninterrupted reference — started on
+    the same input, or *from the same checkpoint* — returns `v`, then the call of the run with interrupt
+    points at every level returns `v` with the same function-node executions, or returns an interrupt
+    whose checkpoint (carrying the nested checkpoints of the interrupted graph nodes under their keys) is
+    acceptable and from which the reference returns `v`, the reference's executions being those of this
+    call plus those of the reference from that checkpoint: "the uninterrupted run = this call, then
+    the uninterrupted run from the checkpoint" — and the work left (`NR.work`: supersteps of the
+    reference at all levels, plus one per run started on a fresh input) is strictly smaller than before
+    the call.  It never fails.  By induction on the depth
+    (`NR.call_sim`); the step from a nested runner to the node containing it is `subBody_sim`. -/
+theorem nested_call_sim (ops : ValOps V) (b : Bool) (cd : SubCodec V S X)
+    (hcd : ∀ cp info, cd.cp (cd.pack cp info) = cp)
+    (d : Nat) (nr : NR V S X d) (sched : ISched V S X) (hyp : NR.Hyp ops (srcCfg b) cd d nr sched)
+    (isSub hasID s0 h0 : Bool) (v : V) (inp : V ⊕ Checkpoint V S X)
+    (hinp : InpOK (srcCfg b) (NR.toI ops (srcCfg b) cd d nr) (NR.xok ops (srcCfg b) cd d nr) inp)
+    (href : (runI ops (srcCfg b) (NR.toI ops (srcCfg b) cd d (NR.deepPlain d nr)) sched s0 h0 inp).res = .done v) :
+    SimOut ops (srcCfg b) (NR.isFn d nr) (NR.xok ops (srcCfg b) cd d nr) (NR.clog d nr) (NR.wt ops (srcCfg b) cd d nr)
+      (NR.toI ops (srcCfg b) cd d nr) (NR.toI ops (srcCfg b) cd d (NR.deepPlain d nr)) sched s0 h0 v
+      (levelLog (NR.isFn d nr) (NR.clog d nr)
+        (runI ops (srcCfg b) (NR.toI ops (srcCfg b) cd d (NR.deepPlain d nr)) sched s0 h0 inp).evs)
+      (NR.work ops (srcCfg b) cd d nr sched inp)
+      (runI ops (srcCfg b) (NR.toI ops (srcCfg b) cd d nr) sched isSub hasID inp) :=
+  NR.call_sim ops (srcCfg b) cd hcd (srcCfg_fresh b) d nr sched hyp isSub hasID s0 h0 v inp hinp href
+
+/-- **resume_equiv_nested.**  For a graph nested to any depth `d`, with interrupt-before/after sets at
+    every level (so that graph nodes interrupt inside, any number of times, and the parent's checkpoint
+    carries the nested checkpoints): if the uninterrupted run (interrupt sets emptied at every level)
+    returns `v`, then every history of calls with the same checkpoint id that no longer ends in an
+    interrupt ends with `v` — it does not fail — and the function nodes of all levels are executed, over
+    the whole history, exactly as often and on exactly the inputs (after their pre-handlers) as in the
+    uninterrupted run (`List.Perm` of the logs of (node path, input)).  Nothing completed is
+    re-executed, nothing is lost.  For every completion order that is a permutation, at every level. -/
+theorem resume_equiv_nested (ops : ValOps V) (b : Bool) (cd : SubCodec V S X)
+    (hcd : ∀ cp info, cd.cp (cd.pack cp info) = cp)
+    (d : Nat) (nr : NR V S X d) (sched : ISched V S X) (hyp : NR.Hyp ops (srcCfg b) cd d nr sched)
+    (calls : Nat) (x v : V)
+    (href : (run₀ ops (srcCfg b) (NR.toI ops (srcCfg b) cd d (NR.deepPlain d nr)) sched x).res = .done v)
+    (res : Res V S X)
+    (hfin : Out.finalOf (resumeUntilDone ops (srcCfg b) (NR.toI ops (srcCfg b) cd d nr) sched calls x) = some res)
+    (hne : res.final? ≠ none) :
+    res = .done v ∧
+    (NR.leafLog d nr (run₀ ops (srcCfg b) (NR.toI ops (srcCfg b) cd d (NR.deepPlain d nr)) sched x).evs).Perm
+      (NR.leafLog d nr (allEvs (resumeUntilDone ops (srcCfg b) (NR.toI ops (srcCfg b) cd d nr) sched calls x))) :=
+  NR.resume_equiv ops (srcCfg b) cd hcd (srcCfg_fresh b) d nr sched hyp calls x v href res hfin hne
+
+/-- **resume_terminates_nested.**  The history completes: the work of the uninterrupted run
+    (`NR.work`, a number computed from the reference run alone) bounds the number of interrupts, at
+    whatever levels they are taken; a caller that allows more calls than that ends with a result. -/
+theorem resume_terminates_nested (ops : ValOps V) (b : Bool) (cd : SubCodec V S X)
+    (hcd : ∀ cp info, cd.cp (cd.pack cp info) = cp)
+    (d : Nat) (nr : NR V S X d) (sched : ISched V S X) (hyp : NR.Hyp ops (srcCfg b) cd d nr sched)
+    (calls : Nat) (x v : V)
+    (href : (run₀ ops (srcCfg b) (NR.toI ops (srcCfg b) cd d (NR.deepPlain d nr)) sched x).res = .done v)
+    (hc : NR.work ops (srcCfg b) cd d nr sched (.inl x) < calls) :
+    ∃ res, Out.finalOf (resumeUntilDone ops (srcCfg b) (NR.toI ops (srcCfg b) cd d nr) sched calls x) = some res ∧
+      res.final? ≠ none :=
+  NR.resume_terminates ops (srcCfg b) cd hcd (srcCfg_fresh b) d nr sched hyp calls x v href hc
+
+/-- **resume_equiv_nested_bounded.**  Both together, in the shape of `resume_equiv_single_level`: enough
+    calls (more than the work of the uninterrupted run), then the history ends with the value of the
+    uninterrupted run and executes the function nodes of all levels exactly as the uninterrupted run. -/
+theorem resume_equiv_nested_bounded (ops : ValOps V) (b : Bool) (cd : SubCodec V S X)
+    (hcd : ∀ cp info, cd.cp (cd.pack cp info) = cp)
+    (d : Nat) (nr : NR V S X d) (sched : ISched V S X) (hyp : NR.Hyp ops (srcCfg b) cd d nr sched)
+    (calls : Nat) (x v : V)
+    (href : (run₀ ops (srcCfg b) (NR.toI ops (srcCfg b) cd d (NR.deepPlain d nr)) sched x).res = .done v)
+    (hc : NR.work ops (srcCfg b) cd d nr sched (.inl x) < calls) :
+    Out.finalOf (resumeUntilDone ops (srcCfg b) (NR.toI ops (srcCfg b) cd d nr) sched calls x) = some (.done v) ∧
+    (NR.leafLog d nr (run₀ ops (srcCfg b) (NR.toI ops (srcCfg b) cd d (NR.deepPlain d nr)) sched x).evs).Perm
+      (NR.leafLog d nr (allEvs (resumeUntilDone ops (srcCfg b) (NR.toI ops (srcCfg b) cd d nr) sched calls x))) := by
+  obtain ⟨res, h1, h2⟩ := resume_terminates_nested ops b cd hcd d nr sched hyp calls x v href hc
+  obtain ⟨h3, h4⟩ := resume_equiv_nested ops b cd hcd d nr sched hyp calls x v href res h1 h2
+  exact ⟨by rw [h1, h3], h4⟩
+
+/-- **resume_equiv_nested_pregel.**  `resume_equiv_nested_bounded` with every hypothesis about the engine
+    discharged: for a graph nested to any depth whose levels are all any-predecessor (Pregel) levels —
+    any topology, cycles, branches, fan-in — with distinct channel keys, completion orders that are
+    permutations, commuting post-handlers at every level, and a merge that does not depend on the order
+    of its arguments. -/
+theorem resume_equiv_nested_pregel (ops : ValOps V) (hm : MergePerm ops) (b : Bool) (cd : SubCodec V S X)
+    (hcd : ∀ cp info, cd.cp (cd.pack cp info) = cp)
+    (d : Nat) (nr : NR V S X d) (sched : ISched V S X) (hyp : NR.PregelHyp ops (srcCfg b) cd d nr sched)
+    (calls : Nat) (x v : V)
+    (href : (run₀ ops (srcCfg b) (NR.toI ops (srcCfg b) cd d (NR.deepPlain d nr)) sched x).res = .done v)
+    (hc : NR.work ops (srcCfg b) cd d nr sched (.inl x) < calls) :
+    Out.finalOf (resumeUntilDone ops (srcCfg b) (NR.toI ops (srcCfg b) cd d nr) sched calls x) = some (.done v) ∧
+    (NR.leafLog d nr (run₀ ops (srcCfg b) (NR.toI ops (srcCfg b) cd d (NR.deepPlain d nr)) sched x).evs).Perm
+      (NR.leafLog d nr (allEvs (resumeUntilDone ops (srcCfg b) (NR.toI ops (srcCfg b) cd d nr) sched calls x))) :=
+  resume_equiv_nested_bounded ops b cd hcd d nr sched (NR.hyp_of_pregel ops hm (srcCfg b) cd d nr sched hyp) calls x v href hc
+
+/-- **nesting_step.**  The inductive step in isolation, for any two runners (not only those of the
+    family `NR`): if the calls of a nested runner `c` simulate those of `c₀` (`CallSim`, the statement of
+    `nested_call_sim`), then the graph node containing `c` simulates the graph node containing `c₀`
+    (`BodySim`, what `call_sim` assumes of the node bodies of the parent level). -/
+theorem nesting_step (ops : ValOps V) (cfg : Cfg) (cd : SubCodec V S X) (hcd : ∀ cp info, cd.cp (cd.pack cp info) = cp)
+    (isFn : Key → Bool) (XOK : Key → X → Prop) (clog : Key → List (Ev V S X) → Log V)
+    (wt : Key → V → S → Option X → Nat)
+    (c c₀ : IRunner V S X) (sc : ISched V S X) (k : Key) (h : CallSim ops cfg isFn XOK clog wt c c₀ sc) :
+    BodySim (fun p => LsOK c XOK (restore cfg c (cd.cp p))) (fun evs => pfxLog k (levelLog isFn clog evs))
+      (fun v _ x => callWt ops cfg wt c₀ sc (subInp cd v x))
+      (subBody ops cfg cd c sc) (subBody ops cfg cd c₀ sc) :=
+  subBody_sim ops cfg cd hcd isFn XOK clog wt c c₀ sc k h
+
+/-- **split_rule_pregel.**  The per-level hypothesis `SplitOK` ("post-handlers of the tasks finished
+    before the nested interrupt, fold without `get`, then the resumed graph nodes and
+    `calculateNextTasks` = post-handlers of all and `calculateNextTasks`") holds for every
+    any-predecessor level — any topology, cycles, branches, fan-in — when merging does not depend on the
+    order of its arguments and the post-handlers of different nodes commute.  Engine part:
+    `pregel_fold_then_get`, `pregel_calcNext_perm` (Proofs/C05NestedEngine.lean). -/
+theorem split_rule_pregel (ops : ValOps V) (hm : MergePerm ops) (r : IRunner V S X) (hdag : r.base.dag = false)
+    (hc : PostsCommute r) : SplitOK ops r :=
+  pregel_splitOK ops hm r hdag hc
+
+/-- **split_rule_of.**  In either trigger mode the split rule follows from three facts about the level:
+    fold-then-get = get-after-all (`FoldThenGet`), order-insensitivity of one `calculateNextTasks`
+    (`CalcNextPerm`), commuting post-handlers. -/
+theorem split_rule_of (ops : ValOps V) (r : IRunner V S X) (hf : FoldThenGet ops r.base) (hp : CalcNextPerm ops r.base)
+    (hc : PostsCommute r) : SplitOK ops r :=
+  splitOK_of ops r hf hp hc
+
+/-- **fold_then_get_pregel.**  The compositional rule of the sub-graph interrupt path, any-predecessor
+    mode, every runner and channel map: folding the tasks that finished before the interrupt into the
+    channels without `get` and reporting the resumed ones later gives exactly the channels and next tasks
+    of reporting all of them at once. -/
+theorem fold_then_get_pregel (ops : ValOps V) (base : Runner V) (hdag : base.dag = false) : FoldThenGet ops base :=
+  fun cm D1 D2 cm' nx _ h => pregel_fold_then_get ops base hdag cm D1 D2 cm' nx h
+
+/-! ### non-vacuity: nested runners that do interrupt inside, two and three levels deep
+
+  The runners (`inner`: start → a → c → end with interrupt-after {a}, interrupt-before {c}; `outer`:
+  start → g, start → p; g, p → j → end where `g` is the graph `inner` and interrupt-before {j}; `outer2`:
+  start → h → end, start → q → end where `h` is the graph `outer`, interrupt-after {q}, completion order
+  reversed) and the proofs of their hypotheses (`outer_hyp`, `outer2_hyp`) are in
+  Proofs/C05NestedExamples.lean. -/
+open EinoV.NestedEx (Pay payCodec inner outer outer2 revSched outer_hyp outer2_hyp)
+
+def finalValP (h : List (Out Nat Nat Pay)) : Option Nat :=
+  match Out.finalOf h with | some (.done v) => some v | _ => none
+/-- 1: the call returned an interrupt -/
+def kindsP (h : List (Out Nat Nat Pay)) : List Nat :=
+  h.map (fun o => match o.res with | .done _ => 0 | .interrupted .. => 1 | .failed _ => 2)
+
+/-- the hypotheses of `resume_equiv_nested` hold for `outer` (two levels) and `outer2` (three levels); the
+    histories do interrupt — inside the nested graphs — and complete with the value of the
+    uninterrupted run; the executions are a permutation (not the same order) of the uninterrupted ones -/
+example : payCodec.cp (payCodec.pack cp info) = cp := rfl
+example : kindsP (resumeUntilDone natOps fixedCfg (NR.toI natOps fixedCfg payCodec 1 outer) ISched.id 10 1) = [1, 1, 0] := by decide
+example : finalValP (resumeUntilDone natOps fixedCfg (NR.toI natOps fixedCfg payCodec 1 outer) ISched.id 10 1) = some 120 := by decide
+example : finalValP [run₀ natOps fixedCfg (NR.toI natOps fixedCfg payCodec 1 (NR.deepPlain 1 outer)) ISched.id 1] = some 120 := by decide
+example : NR.leafLog 1 outer (allEvs (resumeUntilDone natOps fixedCfg (NR.toI natOps fixedCfg payCodec 1 outer) ISched.id 10 1)) =
+    [(["g", "a"], 1), (["p"], 1), (["g", "c"], 2), (["j"], 15)] := by decide
+example : NR.leafLog 1 outer (run₀ natOps fixedCfg (NR.toI natOps fixedCfg payCodec 1 (NR.deepPlain 1 outer)) ISched.id 1).evs =
+    [(["g", "a"], 1), (["g", "c"], 2), (["p"], 1), (["j"], 15)] := by decide
+example : kindsP (resumeUntilDone natOps fixedCfg (NR.toI natOps fixedCfg payCodec 2 outer2) revSched 10 1) = [1, 1, 0] := by decide
+example : NR.leafLog 2 outer2 (allEvs (resumeUntilDone natOps fixedCfg (NR.toI natOps fixedCfg payCodec 2 outer2) revSched 10 1)) =
+    [(["h", "g", "a"], 1), (["h", "p"], 1), (["q"], 1), (["h", "g", "c"], 2), (["h", "j"], 15)] := by decide
+example : finalValP (resumeUntilDone natOps fixedCfg (NR.toI natOps fixedCfg payCodec 2 outer2) revSched 10 1) =
+    finalValP [run₀ natOps fixedCfg (NR.toI natOps fixedCfg payCodec 2 (NR.deepPlain 2 outer2)) revSched 1] := by decide
+
+/-- all hypotheses of `resume_equiv_nested_bounded` at once, on the three-level runner: any number of calls
+    above the bound `NR.work` (which evaluates to 8 here; the history takes 2 interrupts) -/
+example (n : Nat) (hn : NR.work natOps (srcCfg true) payCodec 2 outer2 revSched (.inl 1) < n) :
+    Out.finalOf (resumeUntilDone natOps (srcCfg true) (NR.toI natOps (srcCfg true) payCodec 2 outer2) revSched n 1) =
+      some (.done 1121) :=
+  (resume_equiv_nested_bounded natOps true payCodec (fun _ _ => rfl) 2 outer2 revSched outer2_hyp n 1 1121 rfl hn).1
+
+/-- all hypotheses of `resume_equiv_nested` at once, on the three-level runner: whatever the history
+    (10 calls allowed) ends with, if it is not an interrupt it is the value of the uninterrupted run -/
+example (res : Res Nat Nat Pay)
+    (hfin : Out.finalOf (resumeUntilDone natOps (srcCfg true) (NR.toI natOps (srcCfg true) payCodec 2 outer2) revSched 10 1) = some res)
+    (hne : res.final? ≠ none) : res = .done 1121 :=
+  (resume_equiv_nested natOps true payCodec (fun _ _ => rfl) 2 outer2 revSched outer2_hyp 10 1 1121 rfl res hfin hne).1
+
+end Nested
+
+/-! ## Rerun nodes: a node that asks to be interrupted and re-run
+
+  FULL STATEMENT, kept visible (NOT proved):
+    resume_equiv_rerun : a history in which nodes return `InterruptAndRerun` ends like the run of the same
+      graph with the rerun requests removed, and executes the same nodes on the same inputs apart from the
+      aborted attempts.
+  PROVED: what the resume does with such a node — `rerun_restores_exactly` (the checkpoint restores
+  exactly the nodes that asked for a rerun and the graph nodes that interrupted inside, each on the
+  zero input; the tasks that completed in the interrupted superstep are folded into the channels and
+  are not started again) and `rerun_input_rebuilt` (the restored task has no nested checkpoint and its
+  pre-handler is *not* skipped: the body starts on what the pre-handler makes of the zero input and the
+  restored state — the input it had, if the pre-handler rebuilds it from the state).
+  MISSING: the aborted attempt and the re-execution necessarily communicate through the state (in a
+  deterministic model a node can only stop asking for a rerun because the state changed), so the
+  states of the history and of the run without rerun requests differ by that bookkeeping for ever
+  after; the equivalence holds only *up to a relation on states* that every handler and body respects.
+  `call_sim` is stated with equal states; its relational version (same structure, `LsOK` with related
+  states, handlers and bodies assumed to respect the relation, the rerun node's second execution
+  assumed to return what the execution without request returns) is not done.  The correspondence check
+  covers it (≈960 rerun histories per quick run, states compared modulo the attempt counters). -/
+section Rerun
+open EinoV.Interrupt
+
+variable {V S X : Type}
+
+/-- **rerun_restores_exactly.**  When a superstep ends in an interrupt because nodes asked for a rerun
+    (or graph nodes interrupted inside): every such node is reported (RerunNodes / SubGraphs with its
+    payload); the checkpoint restores exactly these nodes, each on the zero input, with SkipPreHandler
+    exactly for the graph nodes — no node that completed in the superstep is started again by the resume
+    (its output is already folded into the channels, `sr_checkpoint_partial`).  For every completion
+    order that loses no task. -/
+theorem rerun_restores_exactly (ops : ValOps V) (r : IRunner V S X) (sched : ISched V S X) (hk : SchedKeeps sched)
+    (ls : LoopSt V S X) (cp : Checkpoint V S X) (info : Info S X) (h : (stepI ops r sched ls).2 = .intr cp info) :
+    (∀ k s, (k, BodyRes.rerun s) ∈ (runBodies r (runPres r ls.tasks ls.st).1 (runPres r ls.tasks ls.st).2).1 →
+      k ∈ info.rerun) ∧
+    (∀ k p s, (k, BodyRes.subInt p s) ∈ (runBodies r (runPres r ls.tasks ls.st).1 (runPres r ls.tasks ls.st).2).1 →
+      (k, p) ∈ info.subs) ∧
+    ((info.subs ≠ [] ∨ info.rerun ≠ []) →
+      (∀ k, k ∈ cp.inputs.map (·.1) ↔ (k ∈ info.rerun ∨ k ∈ info.subs.map (·.1))) ∧
+      (∀ q ∈ cp.inputs, q.2 = ops.zero) ∧ cp.skipPre = info.subs.map (·.1)) :=
+  stepI_sr_complete ops r sched hk ls cp info h
+
+/-- **rerun_input_rebuilt.**  The task the resume builds for a node that asked for a rerun (a restored
+    key that is not a SubGraphs key): zero input, pre-handler not skipped, no nested checkpoint; and its
+    pre-handler `h` turns it into a task on `(h zero st).1` — the body of the re-execution starts on what
+    the pre-handler rebuilds from the restored state (`st`: the state when the pre-handler runs). -/
+theorem rerun_input_rebuilt (r : IRunner V S X) (zero : V) (inputs : List (Key × V)) (subs : List (Key × X)) (k : Key)
+    (hin : ∀ q ∈ inputs, q.2 = zero) (hnsub : k ∉ subs.map (·.1))
+    (n : INode V S X) (h : V → S → V × S) (hn : r.inode? k = some n) (hp : n.pre = some h) :
+    (∀ t ∈ restoreTasks inputs (subs.map (·.1)) subs, t.key = k →
+      t = { key := k, input := zero, skipPre := false, sub := none }) ∧
+    (∀ st, preOne r { key := k, input := zero, skipPre := false, sub := none } st =
+      ({ key := k, input := (h zero st).1, skipPre := false, sub := none }, (h zero st).2)) :=
+  ⟨restoreTasks_rerun zero inputs (subs.map (·.1)) subs k hin hnsub hnsub,
+   fun st => preOne_rerun r k n h hn hp zero st⟩
+
+/-- start → a → t → end; `t` asks for a rerun on its first attempt (attempt counter in the state, second
+    component); its pre-handler saves the input in the state (first component) and rebuilds it when it
+    is handed the zero input.  `plainBody`: the same graph with the rerun request removed. -/
+def rr (plainBody : Bool) : IRunner Nat (Nat × Nat) Unit :=
+  { base := compile 10 { nodes := [("a", fun v => .ok v), ("t", fun v => .ok v)],
+                         edges := [(START, "a"), ("a", "t"), ("t", END)], branches := [] },
+    inodes := [{ key := "a", body := fun v s _ => { res := .done (v + 1) s } },
+               { key := "t",
+                 pre := some (fun v s => if v == 0 then (s.1, s) else (v, (v, s.2))),
+                 body := fun v s _ =>
+                   if !plainBody && s.2 < 1 then { res := .rerun (s.1, s.2 + 1) } else { res := .done (v * 2) s } }],
+    initState := (0, 0) }
+
+def finalValR (h : List (Out Nat (Nat × Nat) Unit)) : Option Nat :=
+  match Out.finalOf h with | some (.done v) => some v | _ => none
+
+/-- the full statement on this instance: same final value; `t` is executed twice on the same input 6
+    (the aborted attempt and the re-execution on the rebuilt input), `a` once; the resumed call starts
+    with the superstep `[t]` only -/
+example : finalValR (resumeUntilDone natOps fixedCfg (rr false) ISched.id 10 5) = some 12 := by decide
+example : finalValR [run₀ natOps fixedCfg (rr true) ISched.id 5] = some 12 := by decide
+example : execLog (allEvs (resumeUntilDone natOps fixedCfg (rr false) ISched.id 10 5)) = [("a", 5), ("t", 6), ("t", 6)] := by decide
+example : execLog (run₀ natOps fixedCfg (rr true) ISched.id 5).evs = [("a", 5), ("t", 6)] := by decide
+example : (resumeUntilDone natOps fixedCfg (rr false) ISched.id 10 5).map (fun o => topSteps o.evs) =
+    [[[("a", false)], [("t", false)]], [[("t", false)]]] := by decide
+example : SchedKeeps (ISched.id (V := Nat) (S := Nat × Nat) (X := Unit)) := fun _ _ h => h
+
+end Rerun
 
 end EinoV.C05
